@@ -95,9 +95,15 @@ pub fn vec_u8_to_bytes_le(input: &[u8]) -> Result<Vec<u8>> {
 pub fn bytes_le_to_vec_u8(input: &[u8]) -> Result<(Vec<u8>, usize)> {
     let mut read: usize = 0;
 
+    if input.len() < 8 {
+        return Err(Report::msg("input too short to contain a vector length"));
+    }
     let len = usize::try_from(u64::from_le_bytes(input[0..8].try_into()?))?;
     read += 8;
 
+    if len > input.len() - 8 {
+        return Err(Report::msg("vector length exceeds input size"));
+    }
     let res = input[8..8 + len].to_vec();
     read += res.len();
 
@@ -109,10 +115,16 @@ pub fn bytes_le_to_vec_fr(input: &[u8]) -> Result<(Vec<Fr>, usize)> {
     let mut read: usize = 0;
     let mut res: Vec<Fr> = Vec::new();
 
+    if input.len() < 8 {
+        return Err(Report::msg("input too short to contain a vector length"));
+    }
     let len = usize::try_from(u64::from_le_bytes(input[0..8].try_into()?))?;
     read += 8;
 
     let el_size = fr_byte_size();
+    if len > (input.len() - 8) / el_size {
+        return Err(Report::msg("vector length exceeds input size"));
+    }
     for i in 0..len {
         let (curr_el, _) = bytes_le_to_fr(&input[8 + el_size * i..8 + el_size * (i + 1)]);
         res.push(curr_el);
@@ -124,6 +136,9 @@ pub fn bytes_le_to_vec_fr(input: &[u8]) -> Result<(Vec<Fr>, usize)> {
 
 #[inline(always)]
 pub fn bytes_le_to_vec_usize(input: &[u8]) -> Result<Vec<usize>> {
+    if input.len() < 8 || (input.len() - 8) % 8 != 0 {
+        return Err(Report::msg("input is not a sequence of 8-byte integers"));
+    }
     let nof_elem = usize::try_from(u64::from_le_bytes(input[0..8].try_into()?))?;
     if nof_elem == 0 {
         Ok(vec![])
